@@ -640,7 +640,12 @@ def _run(start, reqs, pts, m, Model):
             raise
         evals += 1
         # ---- idempotence -----------------------------------------------------------------------
-        if req.idempotent and pk_only:
+        single_transit = req.cat == 'TRANSITS' and req.val[0] == 1 and d1['TRANSITS'] != 1
+        if single_transit:
+            # find_transit_compartments: "one single transit compartment cannot be distinguished from one depot compartment
+            # [and] will be defined to be a depot": asking for 1 transit again then adds a transit in front of that "depot"
+            classes.append('idempotence-skipped:single-transit-is-depot')
+        if req.idempotent and pk_only and not single_transit:
             try:
                 m2 = guard(req.call, m1, allowed=allowed(), clause=f'not-total:{req.fname}')
             except Reject as r:
@@ -761,7 +766,42 @@ def _has_label_prefix(prefix):
     return lambda spec: any(lab.startswith(prefix) for lab in _labels(spec))
 
 
+def _nonmem_nonlinear_elimination_back_to_fo(spec):
+    """NONMEM start model with a peripheral compartment (from the start or requested), elimination set to ZO / MM /
+    MIX-FO-MM and later back to FO"""
+    start, reqs = resolve(spec)
+    if start in REV_STARTS:
+        return False
+    nonlinear_at = None
+    for i, r in enumerate(reqs):
+        if r.cat == 'ELIMINATION' and r.val != 'FO' and nonlinear_at is None:
+            nonlinear_at = i
+        if r.cat == 'ELIMINATION' and r.val == 'FO' and nonlinear_at is not None:
+            periph = start in ('pheno_advan3', 'mox_2comp') or any(
+                q.cat == 'PERIPHERALS' and q.val not in (('set', 0), ('rm', None)) for q in reqs[:i]
+            )
+            if periph:
+                return True
+    return False
+
+
+def _inst_after_lag(spec):
+    _, reqs = resolve(spec)
+    seen_lag = False
+    for r in reqs:
+        if r.cat == 'LAGTIME' and r.val:
+            seen_lag = True
+        if seen_lag and r.cat == 'ABSORPTION' and r.val == 'INST':
+            return True
+    return False
+
+
 KNOWN_PREDICATES = {
+    'nonmem_nonlinear_elimination_back_to_fo': _nonmem_nonlinear_elimination_back_to_fo,
+    'inst_after_lag': _inst_after_lag,
+    'has_inst_request': _has_label_prefix('ABSORPTION(INST)'),
+    'has_lag_request': _has_label_prefix('LAGTIME(ON)'),
+    'has_bio_request': _has_label_prefix('add_bioavailability'),
     'has_transits_request': _has_label_prefix('TRANSITS('),
     'has_metabolite_request': _has_label_prefix('add_metabolite'),
     'has_pd_request': lambda spec: any(r.cat == 'EXT' and not r.label.startswith('add_metabolite') for r in resolve(spec)[1]),
